@@ -20,7 +20,7 @@ ASSUMPTIONS = [
     "canonicalize_name on non-ASCII upper-case letters (str.lower beyond ASCII) is not modelled; generators use ASCII plus lower-case e-acute",
 ]
 TRUSTED_EXTRA = [
-    "ast.literal_eval on a quoted token without backslash = its body, failing exactly on NUL/LF/CR (checked over all code points when the model was written)",
+    "ast.literal_eval on a quoted token without backslash = its body, failing exactly on NUL/LF/CR (re-checked by the law 'law.k.literaleval': code points below U+3000 in the quick tier, all of them in the thorough tier)",
     "Specifier(...) and Specifier.contains(..., prereleases=True) as modelled in coq/Spec/SpecContains.v (validated by the C03 check)",
     "default_environment(): the 11 detected values are an input of the model (read from the implementation interpreter at generation time)",
 ]
@@ -110,4 +110,7 @@ def streams(rng, tier):
                 s = s.replace(nm, 'os_name %s "xyz"' % ("in" if bits >> i & 1 else "not in"))
             env = G.rand_env(rng); env["os_name"] = "y"
             out.append(Case("precedence", "k.eval", [s, "M"] + G.env_args(env)))
+    # the literal_eval oracle boundary, per code point
+    if q: out.append(Case("law-literal-eval", "law.k.literaleval", ["0", str(0x3000)], kind="law"))
+    else: out += [Case("law-literal-eval", "law.k.literaleval", [str(a), str(a + 0x8000)], kind="law") for a in range(0, 0x110000, 0x8000)]
     return out
